@@ -374,6 +374,85 @@ def run(ctx, report):
                     report.violation({**rec, "schedule": f"{name} paused at line event {k} ({fl}:{ln}); {other} runs to completion; {name} resumes",
                                       "what": "; ".join(bad)[:400], "sig": "forced:" + name})
                     break
+    # ---- 1c. per-call file handles: two reads through ONE handle whose file positioning is forced to interleave.  Every file
+    # the handle opens is wrapped; `seek` of the two threads is synchronised pairwise (both seek, then both read), which is
+    # harmless with a file object per call and exposes any file object shared between calls (one position for two readers).
+    class _Ctl:
+        def __init__(self):
+            self.armed = False
+            self.barrier = threading.Barrier(2)
+            self.opened = 0
+
+        def after_seek(self):
+            if not self.armed:
+                return
+            try:
+                self.barrier.wait(0.25)
+            except threading.BrokenBarrierError:
+                try:
+                    self.barrier.reset()
+                except Exception:  # noqa
+                    pass
+
+    class _SyncFile:
+        def __init__(self, f, ctl):
+            self._f, self._ctl = f, ctl
+
+        def seek(self, *a):
+            r = self._f.seek(*a)
+            self._ctl.after_seek()
+            return r
+
+        def __getattr__(self, k):
+            return getattr(self._f, k)
+
+        def __enter__(self):
+            return self
+
+        def __exit__(self, *a):
+            self._f.close()
+
+    ctl = _Ctl()
+
+    def open_sync(fn, mode="rb"):
+        ctl.opened += 1
+        return _SyncFile(open(fn, mode), ctl)
+    pairs = [("to_pandas_cols", "to_pandas_cat"), ("to_pandas_filter", "pick"), ("to_pandas", "head")]
+    for na, nb in pairs:
+        try:
+            want_a, want_b = OPS[na](fastparquet.ParquetFile(path)), OPS[nb](fastparquet.ParquetFile(path))
+            shared = fastparquet.ParquetFile(path, open_with=open_sync)
+            OPS[na](shared)                      # a first call alone (whatever the handle caches is cached now)
+            res = {}
+
+            def runner(tag, fn_):
+                try:
+                    res[tag] = ("ok", fn_(shared))
+                except Exception as e:  # noqa
+                    res[tag] = ("exc", canon_err(e) + " " + str(e)[:80])
+            ctl.armed = True
+            ta = threading.Thread(target=runner, args=("a", OPS[na]))
+            tb = threading.Thread(target=runner, args=("b", OPS[nb]))
+            ta.start(); tb.start(); ta.join(); tb.join()
+            ctl.armed = False
+        except Exception as e:  # noqa
+            ctl.armed = False
+            report.notes.append(f"seek-interleaving run of {na}/{nb} failed: {canon_err(e)} {str(e)[:80]}")
+            continue
+        report.evaluations += 1
+        report.count("seek-interleaved-pair")
+        report.case(("seek-interleave", na, nb), nontrivial=True)
+        bad = []
+        for tag, nm, want in (("a", na, want_a), ("b", nb, want_b)):
+            r = res.get(tag)
+            if r is None or r[0] == "exc":
+                bad.append(f"{nm} failed: {r[1] if r else 'no result'}")
+            elif diff_frames(want, r[1]):
+                bad.append(f"{nm} returned a different result: {diff_frames(want, r[1])[0][:100]}")
+        if bad:
+            report.violation({"check": "seek-interleave", "ops": [na, nb],
+                              "schedule": "both calls position their file before either reads (seek calls synchronised pairwise)",
+                              "what": "; ".join(bad)[:400], "sig": "seek-interleave"})
     # ---- 2. concurrent search
     seq = {}
     pf = fastparquet.ParquetFile(path)
